@@ -1,0 +1,6 @@
+//go:build !verif
+
+package scanner
+
+// verifOnStep is a no-op unless the library is built with the "verif" tag.
+func verifOnStep(*Scanner) {}
